@@ -25,6 +25,9 @@ func verifDial(network, addr string) (net.Conn, error, bool) {
 // command loop in front of Conn.reset, of the opening of a chunked transfer,
 // of its LAST handling, and after each command. No lock is held at any of
 // them.
+// It is also called at "conn.woken", where the command loop has just been
+// woken by another goroutine (the delivery goroutine taking or refusing a
+// chunk, or reporting a result); no lock is held there either.
 var VerifYield func(point string)
 
 func verifYield(point string) {
